@@ -218,15 +218,17 @@ struct BuildSideCache {
     i64_hash_table: Option<HashMap<i64, Vec<HashEntry>>>,
     /// Vectorized hash table for batch-level probing (multi-type support)
     vectorized_ht: Option<VectorizedHashTable>,
-    /// Shared matched-bit per build row (indexed per batch), for join types
-    /// that must emit unmatched BUILD rows exactly once across all probe
-    /// partitions (Left build-left, Right build-right, Full). Without this,
-    /// multi-partition probes silently dropped unmatched build rows — Q13's
-    /// zero-order customers vanished at SF=10.
-    build_matched: Option<Vec<Vec<std::sync::atomic::AtomicBool>>>,
-    /// Number of probe partitions that finished; the last one emits the
-    /// unmatched build rows.
-    completed_partitions: std::sync::atomic::AtomicUsize,
+    /// Unmatched-BUILD-row bookkeeping of the pass currently in progress, for
+    /// join types that must emit unmatched BUILD rows exactly once across all
+    /// probe partitions (Left build-left, Right build-right, Full). Without
+    /// it, multi-partition probes silently dropped unmatched build rows —
+    /// Q13's zero-order customers vanished at SF=10.
+    ///
+    /// The hash tables above are per OPERATOR (built once); this state is per
+    /// PASS over the probe partitions, and an operator above may execute the
+    /// join more than once (the fused streaming aggregate drains its input,
+    /// trips its group budget, and re-executes it). See [`BuildPass`].
+    build_pass: Option<parking_lot::Mutex<Arc<BuildPass>>>,
     /// Row-major copy of the build side for Inner-join gather, plus the
     /// per-batch offsets mapping (batch_idx, row_idx) -> global row. Present
     /// only for eligible builds (Inner, no filter, fixed-width null-free
@@ -234,6 +236,76 @@ struct BuildSideCache {
     /// keeps the unconcatenated originals (still needed for the hash tables'
     /// key buffers and fallback paths).
     row_store: Option<(RowStore, Vec<usize>)>,
+}
+
+/// One round of "every probe partition probed the build side once", at the
+/// end of which the build rows nobody matched are emitted — exactly once.
+///
+/// This used to live directly in [`BuildSideCache`]: one set of matched bits
+/// and one `completed_partitions` counter for the operator's lifetime. The
+/// first pass over the join counted up to `output_partitions` and emitted the
+/// unmatched build rows; every LATER execution of the same operator counted
+/// past it, never hit the equality, and silently returned the join without
+/// its unmatched build rows (a LEFT JOIN with no matches came back empty).
+///
+/// A round is keyed by probe PARTITION, not by execution: what a partition
+/// matches is a function of the partition alone, so executing it again in the
+/// same round sets the same bits and counts once. A round closes when every
+/// partition has finished in it; the finishing execution emits, and the next
+/// execution to arrive opens a fresh round. Hence every complete pass over
+/// the partitions — however many passes came before it and wherever earlier
+/// ones were abandoned — sees the unmatched build rows exactly once.
+struct BuildPass {
+    /// Matched bit per build row (indexed per batch), shared by the probe
+    /// partitions.
+    matched: Vec<Vec<std::sync::atomic::AtomicBool>>,
+    /// Probe partitions that finished probing in this round.
+    finished: Vec<std::sync::atomic::AtomicBool>,
+    /// Number of `true`s in `finished`; the execution that makes it
+    /// `finished.len()` closes the round and emits the unmatched build rows.
+    finished_count: std::sync::atomic::AtomicUsize,
+}
+
+impl BuildPass {
+    fn new(build_batches: &[RecordBatch], probe_partitions: usize) -> Self {
+        use std::sync::atomic::{AtomicBool, AtomicUsize};
+        Self {
+            matched: build_batches
+                .iter()
+                .map(|b| (0..b.num_rows()).map(|_| AtomicBool::new(false)).collect())
+                .collect(),
+            finished: (0..probe_partitions.max(1))
+                .map(|_| AtomicBool::new(false))
+                .collect(),
+            finished_count: AtomicUsize::new(0),
+        }
+    }
+
+    /// The round an execution that is about to probe takes part in: the
+    /// current one, or a fresh one when the current round is closed.
+    fn current(
+        slot: &parking_lot::Mutex<Arc<BuildPass>>,
+        build_batches: &[RecordBatch],
+    ) -> Arc<BuildPass> {
+        use std::sync::atomic::Ordering;
+        let mut current = slot.lock();
+        if current.finished_count.load(Ordering::SeqCst) >= current.finished.len() {
+            *current = Arc::new(BuildPass::new(build_batches, current.finished.len()));
+        }
+        Arc::clone(&current)
+    }
+
+    /// Record that `partition` finished probing. True for exactly one
+    /// execution per round: the one that closes it and must emit the build
+    /// rows whose matched bit is still clear.
+    fn finish(&self, partition: usize) -> bool {
+        use std::sync::atomic::Ordering;
+        let first_time = match self.finished.get(partition) {
+            Some(flag) => !flag.swap(true, Ordering::SeqCst),
+            None => false,
+        };
+        first_time && self.finished_count.fetch_add(1, Ordering::SeqCst) + 1 == self.finished.len()
+    }
 }
 
 /// Vectorized hash table using open addressing with batch-level operations.
@@ -1241,17 +1313,11 @@ impl PhysicalOperator for HashJoinExec {
                     JoinType::Full => true,
                     _ => false,
                 };
-                let build_matched = if needs_build_tracking {
-                    Some(
-                        build_batches
-                            .iter()
-                            .map(|b| {
-                                (0..b.num_rows())
-                                    .map(|_| std::sync::atomic::AtomicBool::new(false))
-                                    .collect::<Vec<_>>()
-                            })
-                            .collect::<Vec<_>>(),
-                    )
+                let build_pass = if needs_build_tracking {
+                    Some(parking_lot::Mutex::new(Arc::new(BuildPass::new(
+                        &build_batches,
+                        self.output_partitions(),
+                    ))))
                 } else {
                     None
                 };
@@ -1273,8 +1339,7 @@ impl PhysicalOperator for HashJoinExec {
                     hash_table,
                     i64_hash_table,
                     vectorized_ht,
-                    build_matched,
-                    completed_partitions: std::sync::atomic::AtomicUsize::new(0),
+                    build_pass,
                     row_store,
                 })
             })
@@ -1343,6 +1408,13 @@ impl PhysicalOperator for HashJoinExec {
                 m[left_len..].to_vec()
             }
         });
+        // The round of unmatched-build-row bookkeeping this execution takes
+        // part in (see BuildPass: a fresh one when the join is executed
+        // again after a completed pass).
+        let build_pass: Option<Arc<BuildPass>> = cache
+            .build_pass
+            .as_ref()
+            .map(|slot| BuildPass::current(slot, &cache.batches));
         let mut result = probe_hash_table(
             &cache.batches,
             &probe_batches,
@@ -1355,19 +1427,16 @@ impl PhysicalOperator for HashJoinExec {
             &self.schema,
             self.filter.as_ref(),
             &self.combined_schema,
-            cache.build_matched.as_deref(),
+            build_pass.as_ref().map(|p| p.matched.as_slice()),
             row_store,
             probe_keep.as_deref(),
         )?;
 
-        // Emit unmatched BUILD rows exactly once: the last probe partition to
-        // finish scans the shared matched bits.
-        if let Some(matched) = &cache.build_matched {
-            let done = cache
-                .completed_partitions
-                .fetch_add(1, std::sync::atomic::Ordering::SeqCst)
-                + 1;
-            if done == self.output_partitions().max(1) {
+        // Emit unmatched BUILD rows exactly once per pass: the probe
+        // partition that closes the round scans the shared matched bits.
+        if let Some(pass) = &build_pass {
+            let matched = &pass.matched;
+            if pass.finish(partition) {
                 let mut unmatched: Vec<(usize, usize)> = Vec::new();
                 for (batch_idx, flags) in matched.iter().enumerate() {
                     for (row_idx, flag) in flags.iter().enumerate() {
